@@ -93,7 +93,7 @@ func sweepTargets(b []byte) []sweepTarget {
 
 // sweepBudget scales the sweep: lines per target, truncation offsets per target, scalars per
 // target whose sub-ranges are deleted.
-type sweepBudget struct{ lines, truncs, scalars, eolLines, jsonNodes, jsonRepl, affixDocMax int }
+type sweepBudget struct{ lines, truncs, scalars, eolLines, jsonNodes, jsonRepl, affixDocMax, linePre int }
 
 // sweepAffixes are put at the start and at the end of scalars.
 var sweepAffixes = []string{"\\", "\"", "'", "$", "${", "#", " ", "%", "\x00"}
@@ -131,6 +131,14 @@ func sweepMuts(body []byte, bud sweepBudget) [][]Mut {
 	lines := sweepLines(len(lineSpans(body)), bud.lines)
 	for _, ln := range lines {
 		out = append(out, []Mut{{Op: "delline", A: ln}}, []Mut{{Op: "dupline", A: ln}})
+	}
+	// text in another encoding in front of each line (the first three prefixes), the other
+	// prefixes rotating
+	for k, ln := range lines {
+		for b := 0; b < 3 && b < bud.linePre; b++ {
+			out = append(out, []Mut{{Op: "linepre", A: ln, B: b}})
+		}
+		out = append(out, []Mut{{Op: "linepre", A: ln, B: 3 + k%(len(linePrefixes)-3)}})
 	}
 	// line terminators: every variant on the first lines, one rotating variant on the others
 	for k, ln := range lines {
@@ -243,6 +251,7 @@ func TestC02_linesweep(t *testing.T) {
 		jsonNodes:   ev.IntEnv("C02_SWEEP_JSONNODES", ev.Scale(48, 600)),
 		jsonRepl:    ev.Scale(5, len(jsonReplacements)),
 		affixDocMax: ev.Scale(1024, 1<<20),
+		linePre:     ev.Scale(2, 3),
 	}
 	only := os.Getenv("C02_ONLY")
 	var idx, ran, targets, auxTargets int
